@@ -727,8 +727,19 @@ class EQLTranslator:
 
             if len(values) != 1 or (values and not isinstance(values[0], str)):
                 column = self.translate_attribute(query.right)
-                expression = column.in_(values)
-                return sa_not(expression) if is_negated else expression
+                # IN never matches NULL (and NOT IN is unknown for it), while in memory None is a member of a
+                # collection that holds None and of no other: spell the missing value out
+                present = [value for value in values if value is not None]
+                holds_none = len(present) != len(values)
+                if is_negated:
+                    expression = sa_not(column.in_(present))
+                    return (
+                        and_(expression, column.is_not(None))
+                        if holds_none
+                        else or_(expression, column.is_(None))
+                    )
+                expression = column.in_(present)
+                return or_(expression, column.is_(None)) if holds_none else expression
 
         mapper = OperatorMapper()
         return mapper.map_contains_operator(query.operation, left, right)
